@@ -109,8 +109,9 @@ def gen_c02(r):
             p["host"] = "localhost"  # BEP3: "ip" may be a DNS name
         if r.random() < 0.3:
             p["id_hex"] = (b"-FK" + bytes(0x80 + r.randrange(0x40) for _ in range(17))).hex()  # ids are binary
-    if r.random() < 0.3:
-        # something connects in right at the start, never says a word and stays
+    if r.random() < 0.3 and not any(p["incoming"] for p in peers[:honest]) and len(peers) <= 3:
+        # something connects in right at the start, never says a word and stays (it counts as a
+        # connected peer the client is not interested in: see the admission rule above)
         peers.append(dict(port=7300, id="-FK0300-abcdefghijkl", incoming=True, have=[False] * n, seed=0, kind="mute", connect_delay_ms=r.choice([0, 50, 150]), hold_s=60))
     g.update(peers=peers, tracker_faults=faults, tracker_port=8000, timeout_s=90, stall_s=15, tracker_delivery=r.choice(["whole", "whole", "split", "chunked"]))
     return g
